@@ -63,6 +63,18 @@ def main(argv=None) -> int:
         print(f"INFRA-ERROR harness: {traceback.format_exc(limit=8)}", file=sys.stderr)
         return 2
 
+    # witnesses of listed findings are replayed on every run (so each KNOWN-FINDING line is re-established
+    # against the current tree, and disappears by itself once the defect is repaired)
+    if hasattr(mod, "check_witness"):
+        for k in core.load_known():
+            if k.get("property") == pid and k.get("status") == "open" and "witness" in k:
+                try:
+                    v = mod.check_witness(k["witness"])
+                except Exception:
+                    v = None
+                if v is not None:
+                    out.violations.append(v)
+
     known_hit, new = split_known(pid, out.violations)
     for entry, v in known_hit:
         print(f"KNOWN-FINDING: property={pid} {entry.get('what', v.what)}")
